@@ -122,6 +122,10 @@ class Controller:
                 return False
         if self.build.rpc_in_flight > 0:
             return False
+        # every running simulated command waits at a gate: a command that got its reply and has
+        # not been resumed yet is about to do something (finish, call again), not waiting
+        if self.build.running_cmds != len(self.parked):
+            return False
         for run in h.executor.running.values():
             worker = getattr(run, "worker", None)
             if worker is not None and type(worker).__name__ == "ThreadWorker":
@@ -572,6 +576,7 @@ def install_patches():
         if build is not None:
             build.event("phase_start")
             build.in_phase = True
+            build.job_loop_task = asyncio.current_task()
         try:
             await orig_job_loop(self)
         finally:
